@@ -2,7 +2,7 @@
 import os
 import tempfile
 
-from common import done, load
+from common import done, load, probe_exception
 
 
 class Car:
@@ -131,7 +131,7 @@ def main(rec):
         try:
             v = f()
         except Exception as ex:  # noqa
-            v = f"{f.__name__} raised {type(ex).__name__}: {ex}"
+            v = probe_exception(f, ex)
         if v:
             done(True, v)
     done(False, "probes pass for " + rec.get("obligation", ""))
